@@ -233,6 +233,14 @@ def top_names_used(scn):
 def scenarios_deep(draw, cfg):
     """scenarios(cfg), in a third of the cases with a chain of nested histories (depth 2-4) planted first"""
     scn = draw(scenarios(cfg))
+    if draw(st.integers(0, 3)) == 0:
+        # a nested history beside a plain folder / file whose name merely extends the history folder's name
+        base = draw(st.sampled_from(["Clips", "s", "A", "Reel1"]))
+        sib = base + draw(st.sampled_from(["_proxy", "2", "0", ".txt", " b"]))
+        if not ({base, sib} & top_names_used(scn)):
+            scn["tree"][base] = {"in.mov": "inside " + base}
+            scn["tree"][sib] = {"next.mov": "beside " + base} if draw(st.booleans()) else "a file beside"
+            scn["steps"] = [{"op": "create", "root": base, "formats": draw(cfg.get("formats", gen.formats())), "flags": []}] + scn["steps"]
     if draw(st.integers(0, 2)) == 0 and "d1" not in top_names_used(scn):
         scn["tree"]["d1"] = {"d2": {"d3": {"d4": {"leaf.txt": "x"}, "f3.txt": "y"}, "f2.txt": "z"}, "f1.txt": "w"}
         chain = ["d1", "d1/d2", "d1/d2/d3", "d1/d2/d3/d4"]
@@ -251,6 +259,8 @@ def wpath(scn, rel):
 def apply_step(world, scn, step, **kw):
     """apply one step; returns the Result for command steps, None for edits"""
     op = step["op"]
+    if op in ("create", "create_sf", "verify", "diff") and "spell" not in kw and scn.get("spell"):
+        kw["spell"] = scn["spell"]
     W = lambda p: wpath(scn, p)
     if op in ("put_new", "overwrite", "restore"):
         world.put(W(step["path"]), step["spec"])
